@@ -29,6 +29,7 @@ that returns normally, the stores to self.* come after the call of the error
 check", "the only paths that reach close() have interrupt == False in their
 condition"), which do not depend on how the source spells the path."""
 import ast
+import copy
 import itertools
 
 from .common import AnalysisError, rel
@@ -203,10 +204,11 @@ class Ev(object):
     """One effect on a path."""
     __slots__ = ('kind', 'node', 'fi', 'held', 'loops', 'nconds', 'fn',
                  'args', 'kwargs', 'res', 'targets', 'base', 'attr', 'key',
-                 'value', 'ctx', 'paths', 'intry', 'pre', 'phis')
+                 'value', 'ctx', 'paths', 'intry', 'pre', 'phis', 'raised')
 
     def __init__(self, kind, node, fi, st, **kw):
         self.kind = kind
+        self.raised = False     # the call did not return (raised instead)
         self.node = node
         self.fi = fi
         self.held = tuple(st.held)
@@ -2342,7 +2344,9 @@ class PathSum(object):
         out = []
         if self.implicit and st.try_depth > 0:
             r = st.fork()
-            r.events.append(ev)
+            rev = copy.copy(ev)
+            rev.raised = True
+            r.events.append(rev)
             r.outcome = ('raise', ('exc', None, next(self.uid)), node,
                          'implicit')
             out.append((r, BOT))
